@@ -1562,6 +1562,19 @@ pub fn realclock_sessions(rep: &Report) -> u64 {
     cases.push(Case { name: "two-gos-on-one-position", steps: vec![send(POSITIONS[0]), send(go200), Step::Wait("bestmove", 4000), send(go200), Step::Wait("bestmove", 4000), send(go200), Step::Wait("bestmove", 4000)], gos: vec![Some(200), Some(200), Some(200)] });
     cases.push(Case { name: "go-position-go", steps: vec![send(POSITIONS[0]), send(go200), Step::Wait("bestmove", 4000), send(POSITIONS[2]), send(go200), Step::Wait("bestmove", 4000), send("ucinewgame"), send(POSITIONS[3]), Step::Sleep(250), send(go200), Step::Wait("bestmove", 4000)], gos: vec![Some(200), Some(200), Some(200)] });
     cases.push(Case { name: "isready-between-position-and-go", steps: vec![send(POSITIONS[3]), Step::Sleep(250), send("isready"), Step::Wait("readyok", 3000), Step::Sleep(250), send(go200), Step::Wait("bestmove", 4000)], gos: vec![Some(200)] });
+    // positions in which one capture search is enormous (nine queens a side in contact: legal material): the
+    // clock must cut the capture search too
+    for (name, fen) in [
+        ("capture-explosion-9-queens-a-side-in-check", "7k/8/1qQqQqQ1/1QqQqQq1/1qQqQqQ1/8/8/K7 w - - 0 1"),
+        ("capture-explosion-9-queens-a-side-black", "k7/8/8/1QqQqQq1/1qQqQqQ1/1QqQqQq1/8/7K b - - 0 1"),
+        ("capture-explosion-two-rows", "k7/8/qQqQqQqQ/QqQqQqQq/qQ6/8/8/K7 w - - 0 1"),
+    ] {
+        let p = Pos::from_fen(fen).expect("explosion fen");
+        if !p.is_legal_position() || p.legal_moves().is_empty() {
+            crate::report::machinery_error(&format!("real-clock session root {} is not a legal non-terminal position", fen));
+        }
+        cases.push(Case { name, steps: vec![send(&format!("position fen {}", fen)), send("isready"), Step::Wait("readyok", 3000), send(go200), Step::Wait("bestmove", 3700), send("isready"), Step::Wait("readyok", 3000)], gos: vec![Some(200)] });
+    }
     // clocks whose slice is 2^64 ms, a multiple of 2^64 ms, just below 2^32 and 2^31 ms, and plain large
     for (name, wtime) in [("slice-2^64-ms", "23058430092136939620"), ("slice-multiple-of-2^64-ms", "100000000000000000000000000000000000000"), ("slice-2^32-ms", "5368709220"), ("slice-2^31-ms", "2684354660"), ("slice-10^15-ms", "1250000000000100"), ("slice-1-hour", "4500100")] {
         cases.push(Case { name, steps: vec![send(POSITIONS[0]), send(&format!("go wtime {} btime 1000 movestogo 1", wtime)), Step::Wait("bestmove", 1800)], gos: vec![None] });
